@@ -401,14 +401,22 @@ func SignV1(cs consensus.State, txn *types.Transaction, partial bool) {
 		uc types.UnlockConditions
 	}
 	var parents []parent
+	seenParent := map[types.Hash256]bool{}
+	add := func(id types.Hash256, uc types.UnlockConditions) {
+		// one set of signatures per distinct parent (what the strongest adversary would present)
+		if !seenParent[id] {
+			seenParent[id] = true
+			parents = append(parents, parent{id, uc})
+		}
+	}
 	for _, in := range txn.SiacoinInputs {
-		parents = append(parents, parent{types.Hash256(in.ParentID), in.UnlockConditions})
+		add(types.Hash256(in.ParentID), in.UnlockConditions)
 	}
 	for _, in := range txn.SiafundInputs {
-		parents = append(parents, parent{types.Hash256(in.ParentID), in.UnlockConditions})
+		add(types.Hash256(in.ParentID), in.UnlockConditions)
 	}
 	for _, r := range txn.FileContractRevisions {
-		parents = append(parents, parent{types.Hash256(r.ParentID), r.UnlockConditions})
+		add(types.Hash256(r.ParentID), r.UnlockConditions)
 	}
 	type slot struct {
 		sigIndex int
